@@ -44,27 +44,27 @@ impl Printer {
         mut out: impl Write,
         print_error_message: bool,
     ) {
-        match write!(
+        let result = write!(
             out,
             "{}{}",
             file_info.path().to_string_lossy(),
             self.delimiter
-        ) {
-            Ok(_) => {}
-            Err(e) => {
-                if print_error_message {
-                    writeln!(
-                        &mut stderr(),
-                        "Error writing {:?} for {}",
-                        file_info.path().to_string_lossy(),
-                        e
-                    )
-                    .unwrap();
-                    matcher_io.set_exit_code(1);
-                }
+        )
+        // A failed flush (disk full, closed pipe) is an error like a failed
+        // write, not a reason to panic.
+        .and_then(|()| out.flush());
+        if let Err(e) = result {
+            if print_error_message {
+                writeln!(
+                    &mut stderr(),
+                    "Error writing {:?} for {}",
+                    file_info.path().to_string_lossy(),
+                    e
+                )
+                .unwrap();
             }
+            matcher_io.set_exit_code(1);
         }
-        out.flush().unwrap();
     }
 }
 
